@@ -87,7 +87,7 @@ def scratch():
 
 # --------------------------------------------------------------------------- cases
 
-DIRS = ['a', 'b', 'dir.x', 'data-1', 'm_n', 'deep']
+DIRS = ['a', 'b', 'dir.x', 'data-1', 'm_n', 'deep', 'my dir', 'x y z']      # (directory and file names may hold spaces)
 LAYOUTS = ('same-dir', 'sibling-dirs', 'nested', 'dotdot')
 
 
@@ -103,7 +103,7 @@ def first_touch(case, on, f, i):
 
 def gen_layout(rng, kind, n, ext):
     """n relative file paths (below the case's temporary root)"""
-    names = rng.sample(['one', 'two', 'three', 'model.v2', 'x-y'], n)
+    names = rng.sample(['one', 'two', 'three', 'model.v2', 'x-y', 'b c'], n)
     d = rng.sample(DIRS, 4)
     if kind == 'same-dir':
         base = rng.choice(['', d[0], d[0] + '/' + d[1]])
